@@ -246,4 +246,4 @@ def run(col, configs, tier):
         guarded(col, S8.rule_getters, facts)
         from rules import c15
         guarded(col, c15.rule_parse_specials, facts)
-        guarded(col, c15.rule_write_specials, facts)
+        guarded_soft(col, c15.rule_write_specials, facts)
